@@ -141,6 +141,16 @@ PROPS["C10"] = {
     "assumptions": [],
 }
 
+PROPS["C11"] = {
+    "units": ["web_request_pool"],
+    "kani": [],
+    "technique": "Verus contracts on the extracted real HttpRequest::new / Drop::drop / AppInitService::call with the pool invariant as the pool's interface contract (push requires a clean request, pop returns a clean uniquely-owned one); whole-view postcondition `fresh`",
+    "level_text": "deductive proof that (i) HttpRequest::drop hands an object to the pool only after clearing scoped app data down to the root entry, request extensions and connection data (the push precondition `pooled` is an obligation), never when the request is still shared; (ii) AppInitService::call produces, on BOTH the pooled and the freshly-allocated path, a request whose every observable field (head, url, skip, captured segments, matched resource path and flag, app-data stack, connection data, extensions, payload) is determined by the incoming request and the app configuration alone; the struct's field list is checked against the contract, so a new field makes the check undecided until the contract says how reuse resets it; the quantifier over request histories is discharged by the pool invariant",
+    "level_note": "assumes std Rc/RefCell semantics (get_mut is Some iff unique), SmallVec shim, Extensions::clear empties; HttpRequestPool's interior mutability (RefCell<Vec>, Cell) is not modelled: its push/pop/is_available/disable bodies are not under contract, only their interface (the invariant) is",
+    "not_decided": ["HttpRequestPool::{push, pop, is_available, disable} bodies (interior mutability)", "Url::update/Url::new recompute the decoded path from the new Uri (actix-router; see C09)", "isolation of ServiceRequest-level mutations made by middleware after call()"],
+    "assumptions": ["drop precondition: the request-local extensions Rc has no other owner when the last HttpRequest handle is dropped (stated in the source comment)", "call precondition: the pool's root container is the service's app_data"],
+}
+
 _PENDING = "not claimed yet: contracts for this property are still under construction in this session"
 NOT_APPLICABLE = {("C%02d" % i): _PENDING for i in range(1, 20)}
 NOT_APPLICABLE["C06"] = "every clause is about instants (deadlines vs. arrival times, runtime timer ordering); no function contract expresses virtual time or scheduler ordering (DESIGN.md section 4 C06)"
